@@ -32,7 +32,8 @@ class CallVarsExtractor:
         return expr.name.lexeme
 
     def visitLiteralExpr(self, expr):  # pylint: disable = unused-argument
-        return ""
+        # A literal names no variable
+        return []
 
     def visitQuotedNameExpr(self, expr):
         # delete backquotes in 'variable'
@@ -45,7 +46,8 @@ class CallVarsExtractor:
         return expr.name
 
     def visitLazyValue(self, expr):  # pylint: disable = unused-argument
-        return ""
+        # A literal names no variable (an empty string would select a column labelled "")
+        return []
 
     def visitLazyCall(self, expr):
         args = list(flatten_list([arg.accept(self) for arg in expr.args]))
